@@ -20,10 +20,12 @@ import (
 
 // Session keys
 const (
-	SessionSMSNumber     = "sms_number"
-	SessionSMSSecret     = "sms_secret"
-	SessionSMSLast       = "sms_last"
-	SessionSMSPendingPID = "sms_pending"
+	SessionSMSNumber = "sms_number"
+	SessionSMSSecret = "sms_secret"
+	// SessionSMSSecretNumber is the phone number SessionSMSSecret was sent to
+	SessionSMSSecretNumber = "sms_secret_number"
+	SessionSMSLast         = "sms_last"
+	SessionSMSPendingPID   = "sms_pending"
 )
 
 // Form value constants
@@ -212,6 +214,7 @@ func (s *SMS) SendCodeToUser(w http.ResponseWriter, r *http.Request, pid, number
 
 	authboss.PutSession(w, SessionSMSLast, strconv.FormatInt(time.Now().UTC().Unix(), 10))
 	authboss.PutSession(w, SessionSMSSecret, code)
+	authboss.PutSession(w, SessionSMSSecretNumber, number)
 
 	logger.Infof("sending sms for %s to %s", pid, number)
 	if err := s.Sender.Send(r.Context(), number, code); err != nil {
@@ -239,6 +242,7 @@ func (s *SMS) GetSetup(w http.ResponseWriter, r *http.Request) error {
 	}
 
 	authboss.DelSession(w, SessionSMSSecret)
+	authboss.DelSession(w, SessionSMSSecretNumber)
 	authboss.DelSession(w, SessionSMSNumber)
 
 	return s.Core.Responder.Respond(w, r, http.StatusOK, PageSMSSetup, data)
@@ -390,6 +394,19 @@ func (s *SMSValidator) validateCode(w http.ResponseWriter, r *http.Request, user
 		}
 
 		verified = 1 == subtle.ConstantTimeCompare([]byte(inputCode), []byte(code))
+
+		// The code only proves possession of the phone it was sent to: when
+		// confirming that's the number being enrolled, otherwise it's the
+		// number registered to the user we are validating.
+		if sentTo, ok := authboss.GetSession(r, SessionSMSSecretNumber); ok {
+			wantNumber := user.GetSMSPhoneNumber()
+			if s.Page == PageSMSConfirm {
+				wantNumber, _ = authboss.GetSession(r, SessionSMSNumber)
+			}
+			if len(wantNumber) == 0 || sentTo != wantNumber {
+				verified = false
+			}
+		}
 	}
 
 	if !verified {
@@ -436,6 +453,7 @@ func (s *SMSValidator) validateCode(w http.ResponseWriter, r *http.Request, user
 
 		authboss.DelSession(w, authboss.Session2FAAuthed)
 		authboss.DelSession(w, SessionSMSSecret)
+		authboss.DelSession(w, SessionSMSSecretNumber)
 		authboss.DelSession(w, SessionSMSNumber)
 
 		logger.Infof("user %s enabled sms 2fa", user.GetPID())
@@ -482,6 +500,7 @@ func (s *SMSValidator) validateCode(w http.ResponseWriter, r *http.Request, user
 		authboss.DelSession(w, authboss.SessionHalfAuthKey)
 		authboss.DelSession(w, SessionSMSPendingPID)
 		authboss.DelSession(w, SessionSMSSecret)
+		authboss.DelSession(w, SessionSMSSecretNumber)
 
 		logger.Infof("user %s sms 2fa success", user.GetPID())
 
